@@ -39,6 +39,8 @@ def sig_of(e, events=None, k=None):
     f = J.features(prog)
     if f:
         return {"clause": "spec", "cause": f[0]}
+    if e.get("dup") and e.get("sens_g"):
+        return {"clause": "spec", "cause": "duplicate_keys_seen_by_both_evaluators"}
     return {"clause": "spec", "cause": "other", "prog": prog}
 
 
